@@ -24,7 +24,7 @@ def model_of_tx(tx):
                 "vout": int(i.prev_index),
                 "script": script_raw_from_fields(i.script_sig),
                 "sequence": int(i.sequence),
-                "witness": [bytes(x) for x in i.witness.items],
+                "witness": [bytes(x) for x in (i.witness.items if i.witness is not None else [])],
             }
         )
     outs = [{"amount": int(o.amount), "script": script_raw_from_fields(o.script_pubkey)} for o in tx.tx_outs]
